@@ -38,17 +38,18 @@ Record state : Type := mkState
     accts : list addr;                   (* addresses with an auth account *)
     secrets : list addr;                 (* addresses with a registered recovery secret *)
     rotated : list addr;                 (* rotation history: sources *)
-    bal : acct -> string -> Z }.
+    bal : acct -> string -> Z;
+    del_fix : bool }.                   (* does DeleteIdentityRecordById also delete the address+key index entry? (probed on the real code) *)
 
-Definition set_recs (s : state) x := mkState x (idx s) (reqs s) (last_rid s) (last_qid s) (ukeys s) (min_tip s) (councilors s) (perm_c s) (perm_v s) (perm_n s) (accts s) (secrets s) (rotated s) (bal s).
-Definition set_idx (s : state) x := mkState (recs s) x (reqs s) (last_rid s) (last_qid s) (ukeys s) (min_tip s) (councilors s) (perm_c s) (perm_v s) (perm_n s) (accts s) (secrets s) (rotated s) (bal s).
-Definition set_reqs (s : state) x := mkState (recs s) (idx s) x (last_rid s) (last_qid s) (ukeys s) (min_tip s) (councilors s) (perm_c s) (perm_v s) (perm_n s) (accts s) (secrets s) (rotated s) (bal s).
-Definition set_last_rid (s : state) x := mkState (recs s) (idx s) (reqs s) x (last_qid s) (ukeys s) (min_tip s) (councilors s) (perm_c s) (perm_v s) (perm_n s) (accts s) (secrets s) (rotated s) (bal s).
-Definition set_last_qid (s : state) x := mkState (recs s) (idx s) (reqs s) (last_rid s) x (ukeys s) (min_tip s) (councilors s) (perm_c s) (perm_v s) (perm_n s) (accts s) (secrets s) (rotated s) (bal s).
-Definition set_ukeys (s : state) x := mkState (recs s) (idx s) (reqs s) (last_rid s) (last_qid s) x (min_tip s) (councilors s) (perm_c s) (perm_v s) (perm_n s) (accts s) (secrets s) (rotated s) (bal s).
-Definition set_bal (s : state) ac x := mkState (recs s) (idx s) (reqs s) (last_rid s) (last_qid s) (ukeys s) (min_tip s) (councilors s) (perm_c s) (perm_v s) (perm_n s) ac (secrets s) (rotated s) x.
+Definition set_recs (s : state) x := mkState x (idx s) (reqs s) (last_rid s) (last_qid s) (ukeys s) (min_tip s) (councilors s) (perm_c s) (perm_v s) (perm_n s) (accts s) (secrets s) (rotated s) (bal s) (del_fix s).
+Definition set_idx (s : state) x := mkState (recs s) x (reqs s) (last_rid s) (last_qid s) (ukeys s) (min_tip s) (councilors s) (perm_c s) (perm_v s) (perm_n s) (accts s) (secrets s) (rotated s) (bal s) (del_fix s).
+Definition set_reqs (s : state) x := mkState (recs s) (idx s) x (last_rid s) (last_qid s) (ukeys s) (min_tip s) (councilors s) (perm_c s) (perm_v s) (perm_n s) (accts s) (secrets s) (rotated s) (bal s) (del_fix s).
+Definition set_last_rid (s : state) x := mkState (recs s) (idx s) (reqs s) x (last_qid s) (ukeys s) (min_tip s) (councilors s) (perm_c s) (perm_v s) (perm_n s) (accts s) (secrets s) (rotated s) (bal s) (del_fix s).
+Definition set_last_qid (s : state) x := mkState (recs s) (idx s) (reqs s) (last_rid s) x (ukeys s) (min_tip s) (councilors s) (perm_c s) (perm_v s) (perm_n s) (accts s) (secrets s) (rotated s) (bal s) (del_fix s).
+Definition set_ukeys (s : state) x := mkState (recs s) (idx s) (reqs s) (last_rid s) (last_qid s) x (min_tip s) (councilors s) (perm_c s) (perm_v s) (perm_n s) (accts s) (secrets s) (rotated s) (bal s) (del_fix s).
+Definition set_bal (s : state) ac x := mkState (recs s) (idx s) (reqs s) (last_rid s) (last_qid s) (ukeys s) (min_tip s) (councilors s) (perm_c s) (perm_v s) (perm_n s) ac (secrets s) (rotated s) x (del_fix s).
 (* everything that is neither record, index, request, counter, unique-key list nor balance *)
-Definition set_aux (s : state) co pc pv pn ac ro := mkState (recs s) (idx s) (reqs s) (last_rid s) (last_qid s) (ukeys s) (min_tip s) co pc pv pn ac (secrets s) ro (bal s).
+Definition set_aux (s : state) co pc pv pn ac ro := mkState (recs s) (idx s) (reqs s) (last_rid s) (last_qid s) (ukeys s) (min_tip s) co pc pv pn ac (secrets s) ro (bal s) (del_fix s).
 
 Fixpoint mem (a : Z) (l : list Z) : bool := match l with [] => false | b :: r => (a =? b) || mem a r end.
 Definition add_mem (a : Z) (l : list Z) : list Z := if mem a l then l else l ++ [a].
@@ -285,12 +286,13 @@ Definition denoms : list string := ["ukex"; "utip"]%string.
 Definition ren (a b x : addr) : addr := if x =? a then b else x.
 Definition move_bal (a b : addr) (s : state) : outcome state :=
   foldM (fun s d => pay_opt s (User a) (User b) d (bal s (User a) d)) denoms s.
-(* DeleteIdentityRecordById removes the record but NOT the old address' index entry
-   (it deletes the index key Uint64ToBigEndian(id), which never exists) *)
+(* DeleteIdentityRecordById removes the record but (unless [del_fix]) NOT the old address' index
+   entry: it deletes the index key Uint64ToBigEndian(id), which never exists *)
 Definition move_rec (b : addr) (s : state) (e : (addr * string) * Z) : outcome state :=
   match get_rec s (snd e) with
   | None => Panic "invalid recordId exists"        (* GetIdRecordsByAddress *)
-  | Some x => set_record (del_rec s (snd e)) (mkRec (r_id x) b (r_key x) (r_val x) (r_date x) (r_ver x))
+  | Some x => let s0 := if del_fix s then del_idx s (r_owner x, r_key x) else s in
+              set_record (del_rec s0 (snd e)) (mkRec (r_id x) b (r_key x) (r_val x) (r_date x) (r_ver x))
   end.
 Definition all_recs_exist (s : state) (l : list ((addr * string) * Z)) : bool :=
   forallb (fun e => match get_rec s (snd e) with Some _ => true | None => false end) l.
@@ -349,6 +351,7 @@ Definition signer (o : op) : addr :=
   | ORotate a _ _ => a
   end.
 
-(* starting states: empty registry, given configuration and balances *)
-Definition init_state (uk : string) (mt : Z) (pc pv pn ac se : list addr) (b : acct -> string -> Z) : state :=
-  mkState [] [] [] 0 0 uk mt [] pc pv pn ac se [] b.
+(* starting states: empty registry, given configuration and balances.  Granting the
+   claim-councilor permission (AddWhitelistPermission) already creates a "waiting" councilor. *)
+Definition init_state (uk : string) (mt : Z) (pc pv pn ac se : list addr) (b : acct -> string -> Z) (fx : bool) : state :=
+  mkState [] [] [] 0 0 uk mt pc pc pv pn ac se [] b fx.
